@@ -164,7 +164,11 @@ void Exec::on_dispatch(int ci, DBusConnection *conn, DBusMessage *msg) {
       // the bus drops a connection only for a reason: the client closed, or it earned it
       bw::Client &dc = w.C(ci);
       bm::Conn &dk = md.conns[(size_t)ci];
-      if (!dc.closed && !dc.hostile && !dk.expect_closed && !dk.unchecked && dk.alive && dk.hello && !fd_surplus.count(ci) && !tainted && plan.C("oom.k", -1) < 0 && !oom_armed)
+      // (a connection whose Hello was processed only after auth_timeout had run out races with the expiry of
+      // unfinished connections in the same loop iteration: the bus may legitimately have closed it already)
+      bool completed_late = lim_cfg.auth_timeout >= 0 && w.accept_time_us.count(ci) && hello_done_us.count(ci) &&
+                            hello_done_us[ci] - w.accept_time_us[ci] >= lim_cfg.auth_timeout * 1000;
+      if (!dc.closed && !dc.hostile && !dk.expect_closed && !dk.unchecked && dk.alive && dk.hello && !completed_late && !fd_surplus.count(ci) && !fd_surplus_sent.count(ci) && !tainted && plan.C("oom.k", -1) < 0 && !oom_armed)
         fail("oracle:C10:unexpected-disconnect", "the bus disconnected well-behaved client c%d", ci);
     }
     md.disconnect(ci);
@@ -209,7 +213,10 @@ void Exec::on_dispatch(int ci, DBusConnection *conn, DBusMessage *msg) {
     fail("oracle:C05:sender-order", "the bus processed c%d's messages out of order: got serial %u, next sent was %u", ci, serial, s.m.serial);
   cur++;
   c.wire_pos = s.end_off_stream;
+  bool was_hello = md.conns[(size_t)ci].hello;
+  if (fd_surplus_sent.count(ci) && fd_surplus_sent[ci] == serial && !fd_surplus.count(ci)) fd_surplus[ci] = K->now_us;   // the bus holds the surplus from now on
   md.process(ci, s.m);
+  if (!was_hello && md.conns[(size_t)ci].hello) hello_done_us[ci] = K->now_us;
   after_event();
 }
 
@@ -513,7 +520,7 @@ void Exec::step(const Step &s) {
     std::vector<int> fds;
     if (nf > 0 || fd_delta != 0) {
       // descriptors: nf attached (distinct anonymous files), the header announces nf + fd_delta
-      if (fd_surplus.count(ci) || md.conns[(size_t)ci].expect_closed || c.closed) return;
+      if (fd_surplus_sent.count(ci) || md.conns[(size_t)ci].expect_closed || c.closed) return;
       long hdr = nf + fd_delta < 0 ? 0 : nf + fd_delta;
       if (hdr > 0) m.set_field(wire::F_UNIX_FDS, wire::Value::u32((uint32_t)hdr));
       std::vector<FdIdent> ids;
@@ -549,7 +556,7 @@ void Exec::step(const Step &s) {
       }
       ids.resize((size_t)hdr);
       fd_idents[{ci, m.serial}] = ids;
-      if (hdr < nf) { fd_surplus[ci] = K->now_us; counters["probe:surplus_fds_sent"]++; }
+      if (hdr < nf) { fd_surplus_sent[ci] = m.serial; counters["probe:surplus_fds_sent"]++; }   // the clock of pending_fd_timeout starts when the bus has read it (on_dispatch)
     }
     {
       wire::Limits wl;
@@ -998,7 +1005,7 @@ void Exec::check_point(bool final) {
   if (!fd_surplus.empty()) {
     long t = lim_cfg.pending_fd_timeout >= 0 ? lim_cfg.pending_fd_timeout : 150000;
     bool waiting = false;
-    for (auto &kv : fd_surplus) { bw::Client &c = w.C(kv.first); if (!c.closed && !c.saw_eof) waiting = true; }
+    for (auto &kv : fd_surplus) { bw::Client &c = w.C(kv.first); if (!c.closed && !c.saw_eof && w.bus_side_connected(kv.first)) waiting = true; }
     if (waiting) {
       for (auto &cl : w.clients) if (cl.connected && !cl.closed) w.deliver(cl.idx, -1);
       w.quiesce(); resolve_choices();
@@ -1007,7 +1014,8 @@ void Exec::check_point(bool final) {
       for (auto &kv : fd_surplus) {
         bw::Client &c = w.C(kv.first);
         w.drain(kv.first);
-        if (!c.closed && !c.saw_eof)
+        // (a client that does not read cannot see the EOF: ask the bus whether it still holds the connection)
+        if (!c.closed && !c.saw_eof && w.bus_side_connected(kv.first))
           fail("oracle:C15:surplus-held", "c%d attached more descriptors than its message announced %lld ms ago (pending_fd_timeout %ld ms) and is still connected, the surplus still held", kv.first,
                (long long)((K->now_us - kv.second) / 1000), t);
         counters["probe:pending_fd_timeout_fired"]++;
